@@ -46,7 +46,10 @@ impl Uci {
     fn uci_loop(&mut self, input: &mut impl BufRead) {
         loop {
             let mut line = String::new();
-            input.read_line(&mut line).unwrap();
+            // End of input (or an unreadable stream) ends the engine, like quit.
+            if !matches!(input.read_line(&mut line), Ok(n) if n > 0) {
+                break;
+            }
             let trimmed = line.trim();
             #[cfg(rce_verif)]
             crate::verif::sched("M.cmd");
